@@ -34,9 +34,18 @@ def base_spec(task):
     return add_scheme_S(flatten(tree, scheme, ivar), send_subset=True, counter=True)
 
 
-def variants(spec):
+def variants(spec, lite=False):
     """-> list of (label, spec', builder)"""
     T = Tree(spec)
+    if lite:
+        def rev(n, kids):
+            return kids[::-1]
+
+        def rot(n, kids):
+            return kids[1:] + kids[:1]
+        return [('reversed/reversed/api', reorder(spec, child_perm=rev, trans_order='reversed'), 'api'),
+                ('reversed/given/yaml', reorder(spec, child_perm=rev), 'yaml'),
+                ('rotated/rotated/yaml', reorder(spec, child_perm=rot, trans_order='rotated'), 'yaml')]
     groups = [n for n in T.order if len(T.children(n)) > 1]
     perms_per_group = [list(itertools.permutations(T.children(g))) for g in groups]
     total = 1
@@ -125,9 +134,9 @@ def work(task):
     digest = hashlib.sha1()
     extra = {'variants': 0, 'comparisons': 0}
     viol = []
-    if mode == 'variants':
+    if mode in ('variants', 'variants-lite'):
         vs = []
-        for label, vspec, builder in variants(spec):
+        for label, vspec, builder in variants(spec, lite=mode == 'variants-lite'):
             try:
                 vs.append((label, engine.Runner(vspec, builder)))
             except Exception as e:
@@ -141,7 +150,7 @@ def work(task):
         hist, op = ex.hist or (), ex.op
         ref = run_on(R0, hist, op)
         digest.update(repr(ref).encode())
-        if mode != 'variants':
+        if mode not in ('variants', 'variants-lite'):
             return
         again = run_on(R0, hist, op)
         extra['comparisons'] += 1
@@ -193,6 +202,10 @@ def run(tier, seed):
             for scheme in ('asc',):
                 for ivar in ((0, 1) if has_variant(tree) else (0,)):
                     tasks.append((tree, scheme, ivar, k, 'variants'))
+    # the deep-history + orthogonal skeletons (several states of equal depth restored at once) also get
+    # all their declaration variants
+    for t in digest_tasks(tier):
+        tasks.append(t[:4] + ('variants-lite',))
     tasks.sort(key=lambda t: -len(repr(t[0])))
     results = harness.pmap(work, tasks, chunksize=2)
     agg = harness.Agg()
@@ -266,6 +279,8 @@ def replay(data):
     print('chart  :', describe(spec))
     print('base   :', run_on(R0, hist, op))
     for label, vspec, builder in variants(spec):
+        pass
+    for label, vspec, builder in variants(spec) + variants(spec, lite=True):
         if label == data.get('label'):
             RV = engine.Runner(vspec, builder)
             print('variant:', label, [s['name'] for s in vspec['states']])
